@@ -167,6 +167,7 @@ func c3toks(vs []c3val) string {
 var c3aggs = []string{"sum", "avg", "min", "max", "count", "stddev", "stddevs", "var", "vars", "median", "percentile",
 	"first_value", "last_value", "nth_value", "collect", "deduplicate", "merge_agg"}
 var c3welford = []string{"w_stddev", "w_stddevs", "w_var", "w_vars"}
+var c3varFamily = []string{"stddev", "stddevs", "var", "vars", "stddev", "stddevs", "var", "vars", "w_stddev", "w_stddevs", "w_var", "w_vars"}
 var c3pcts = [][2]int{{0, 1}, {1, 4}, {1, 2}, {3, 4}, {1, 1}, {1, 8}, {7, 8}}
 
 type c3adder interface {
@@ -248,8 +249,10 @@ func runC03(tier string, seed uint64, o *Out) error {
 	// generator of this property from a hashed draw instead: different seeds, unrelated streams.
 	rng := NewRNG(NewRNG(seed).Next())
 	nD, nP, nG, nS := 2500, 600, 500, 90
+	nDo, nPo, nGo := 600, 150, 120 // large-offset values (c03big.go); a quarter of the S and M jobs use them too
 	if tier == "thorough" {
 		nD, nP, nG, nS = 60000, 15000, 12000, 900
+		nDo, nPo, nGo = 12000, 3000, 2400
 	}
 	all := append(append([]string{}, c3aggs...), c3welford...)
 	// (0) boundary family: every aggregator on the empty list, one value, one NULL, all equal
@@ -281,11 +284,37 @@ func runC03(tier string, seed uint64, o *Out) error {
 		o.Line("C03 D %s %s # %s # %s", agg, param, c3toks(vals), res)
 		o.Count("direct_" + agg)
 	}
+	// (1b) one aggregator object over large-offset values (c03big.go): counters, epoch milliseconds, negative offsets
+	for i := 0; i < nDo; i++ {
+		agg := all[rng.Intn(len(all))]
+		if rng.Intn(3) == 0 { // the variance family is where magnitude against spread matters most
+			agg = c3varFamily[rng.Intn(len(c3varFamily))]
+		}
+		param := c3param(rng, agg)
+		n := rng.Range(1, 12)
+		if rng.Intn(10) == 0 {
+			n = rng.Range(13, 40)
+		}
+		vals := c3genOffsetVals(rng, n, c3offDirect(agg, n))
+		res, err := c3direct(agg, param, vals)
+		if err != nil {
+			return err
+		}
+		o.Line("C03 D %s %s # %s # %s", agg, param, c3toks(vals), res)
+		o.Count("direct_offset_" + agg)
+	}
 	// (2) permutation: same multiset, shuffled
-	for i := 0; i < nP; i++ {
+	for i := 0; i < nP+nPo; i++ {
 		agg := all[rng.Intn(len(all))]
 		param := c3param(rng, agg)
-		vals := c3genVals(rng, rng.Range(2, 14), rng.Intn(2), false)
+		var vals []c3val
+		if i >= nP {
+			n := rng.Range(2, 14)
+			vals = c3genOffsetVals(rng, n, c3offDirect(agg, n))
+			o.Count("permuted_offset")
+		} else {
+			vals = c3genVals(rng, rng.Range(2, 14), rng.Intn(2), false)
+		}
 		sh := append([]c3val{}, vals...)
 		for j := len(sh) - 1; j > 0; j-- {
 			k := rng.Intn(j + 1)
@@ -300,8 +329,8 @@ func runC03(tier string, seed uint64, o *Out) error {
 	}
 	o.Count("permuted")
 	// (3) GroupAggregator: front end of Add, several batches with Reset in between
-	for i := 0; i < nG; i++ {
-		if err := c3group(rng, o); err != nil {
+	for i := 0; i < nG+nGo; i++ {
+		if err := c3group(rng, o, i >= nG); err != nil {
 			return err
 		}
 	}
@@ -313,6 +342,7 @@ func runC03(tier string, seed uint64, o *Out) error {
 		cells  []c3val
 		result string
 		err    error
+		offset bool
 	}
 	jobs := make([]*job, nS)
 	shapes := []string{"col", "col", "nest", "add1", "mul2"}
@@ -333,6 +363,17 @@ func runC03(tier string, seed uint64, o *Out) error {
 			mode = 1
 		}
 		j.cells = c3genVals(rng, nb*j.n, mode, true)
+		if rng.Intn(4) == 0 { // large-offset values, every batch around its own base; x + 1, x * 2 stay exact
+			floats := true
+			for _, a := range j.aggs {
+				floats = floats && !c3rendersInput(a[0])
+			}
+			j.cells = nil
+			for b := 0; b < nb; b++ {
+				j.cells = append(j.cells, c3genOffsetVals(rng, j.n, c3offOpt{maxInt: 5e14, maxFrac: 6e13, floats: floats, strs: mode == 0, missing: true, ordinary: true})...)
+			}
+			j.offset = true
+		}
 		if mode == 1 { // arithmetic is C06's subject: numbers, NULL and missing only
 			for c := range j.cells {
 				switch j.cells[c].v.(type) {
@@ -366,6 +407,9 @@ func runC03(tier string, seed uint64, o *Out) error {
 		}
 		o.Line("C03 S %s %d %d %s # %s # %s", j.shape, j.n, len(j.aggs), strings.Join(spec, " "), c3toks(j.cells), j.result)
 		o.Count("sql_" + j.shape)
+		if j.offset {
+			o.Count("sql_offset")
+		}
 	}
 	// (5) SQL select lists whose calls have different arguments over the same column
 	nM := 110
@@ -397,6 +441,9 @@ func runC03(tier string, seed uint64, o *Out) error {
 		}
 		o.Line("C03 M %d %d %s # %s # %s", j.n, len(j.calls), strings.Join(spec, " "), c3toks(j.cells), j.result)
 		o.Count("sqlmix_" + j.family)
+		if j.offset {
+			o.Count("sqlmix_offset")
+		}
 		if j.dottedSameCol >= 2 {
 			o.Count("sqlmix_two_dotted_args_same_column")
 		}
@@ -477,6 +524,18 @@ type c3mjob struct {
 	err    error
 	// the largest number of calls with pairwise different dotted arguments over one column
 	dottedSameCol int
+	offset        bool // large-offset rows (c03big.go)
+}
+
+// c3offMixed: the pool for the rows of a select list of family M / H: arguments <col> op k with k <= 10 written as an
+// integer or with up to two fraction bits, batches of at most 6 rows: 6 * 10 * max|x| * 2^(fraction bits of the value +
+// 2) must stay below 2^53.
+func c3offMixed(calls []c3call) c3offOpt {
+	floats := true
+	for _, c := range calls {
+		floats = floats && !c3rendersInput(c.agg)
+	}
+	return c3offOpt{maxInt: 3e13, maxFrac: 4e12, floats: floats, missing: true, ordinary: true}
 }
 
 var c3intLits = [][2]int{{1, 1}, {2, 1}, {3, 1}, {10, 1}}
@@ -528,6 +587,13 @@ func c3genMixed(r *RNG) *c3mjob {
 	}
 	nb := r.Range(2, 4)
 	j.cells = c3genVals(r, nb*j.n, 1, true)
+	if r.Intn(4) == 0 {
+		j.cells = nil
+		for b := 0; b < nb; b++ {
+			j.cells = append(j.cells, c3genOffsetVals(r, j.n, c3offMixed(j.calls))...)
+		}
+		j.offset = true
+	}
 	for c := range j.cells { // arithmetic is C06's subject: numbers, NULL and missing only
 		switch j.cells[c].v.(type) {
 		case string, bool:
@@ -571,7 +637,7 @@ func c3mixedRow(i int, c c3val) map[string]any {
 
 // c3group drives aggregator.GroupAggregator directly. mode c: the field reads column x;
 // mode e: an expression evaluator is registered for the field (cell "m" = evaluation error).
-func c3group(rng *RNG, o *Out) error {
+func c3group(rng *RNG, o *Out, offset bool) error {
 	names := []string{"sum", "avg", "min", "max", "count", "stddev", "stddevs", "var", "vars", "median",
 		"first_value", "last_value", "nth_value", "collect", "deduplicate", "merge_agg", "count_star"}
 	k := rng.Range(1, 5)
@@ -610,7 +676,16 @@ func c3group(rng *RNG, o *Out) error {
 	var cellsOut, resOut []string
 	for b := 0; b < nb; b++ {
 		n := rng.Intn(9)
-		cells := c3genVals(rng, n, rng.Intn(2), true)
+		var cells []c3val
+		if offset { // every batch of the run around its own large base (c03big.go)
+			floats := true
+			for _, f := range flds {
+				floats = floats && !c3rendersInput(f.agg)
+			}
+			cells = c3genOffsetVals(rng, n, c3offOpt{maxInt: 1e15, maxFrac: 1e14, floats: floats, strs: true, missing: true, ordinary: true})
+		} else {
+			cells = c3genVals(rng, n, rng.Intn(2), true)
+		}
 		for _, c := range cells {
 			row := map[string]any{"id": 1}
 			if !c.missing {
@@ -644,6 +719,9 @@ func c3group(rng *RNG, o *Out) error {
 	}
 	o.Line("C03 G %d %s # %s # %s", k, strings.Join(spec, " "), strings.Join(cellsOut, " # "), strings.Join(resOut, " # "))
 	o.Count("group_batches_" + fmt.Sprint(nb))
+	if offset {
+		o.Count("group_offset")
+	}
 	return nil
 }
 
